@@ -48,7 +48,7 @@ Definition plain_mem (m : bmem) : bool :=
   match m with
   | MRaw c => negb (mem c [45; 38; 126; 91; 92; 93; 94])
   | MOpen => true
-  | MEsc c => negb (is_alnum c)
+  | MEsc c => peg_escaped_alnum_plain || negb (is_alnum c)
   end.
 Definition plain_item (i : citem) : bool :=
   match i with CCls _ => true | CRng a b => plain_mem a && plain_mem b | CMem m => plain_mem m end.
@@ -70,7 +70,7 @@ Definition class_benign (l : list citem) : bool :=
 (** KF-C08-bracket-dash-ops: a bracket expression whose regex text the engine does not read as
     the union of its members ('--' '&&' '~~' set operators, a range starting with a leading '-') *)
 Definition k_class_ops (ext : bool) (p : str) : bool :=
-  any_br (fun _ items => negb (class_benign (tr_items items)) && negb (existsb item_esc_alnum items)) (parse ext p).
+  any_br (fun _ items => negb (class_benign (tr_items items))) (parse ext p).
 
 (** KF-C08-extglob-paren-nesting: an extglob body contains a '(' that the PEG takes as a literal *)
 Fixpoint lit_paren (inx : bool) (g : gpat) : bool :=
